@@ -50,6 +50,24 @@ class Mode:
         return self.unpt(x)
 
 
+class StretchMode(Mode):
+    """an ORDER-ISOMORPHIC image of the rationals: u for u <= 3, 10^13 * u above.  Everything a knot vector does except
+    shift / scale / normalize / evaluation depends only on order and equality of the numbers, so the small spec state is
+    still the oracle, while the real vectors get an interval 10^13 times longer than their smallest knot gap: code
+    whose tolerances scale with the interval, or that rounds through floats, shows here"""
+    name = "stretch"
+    BIG = 10 ** 13
+
+    def num(self, q):
+        if list(q) == NAN:
+            return "not-a-number"
+        x = fr(q)
+        return x if x <= 3 else x * self.BIG
+
+    def unnum(self, x):
+        return x if x <= 3 else x / self.BIG
+
+
 class TinyWeightMode(Mode):
     """every weight multiplied by 1e-12 (exactly): a rational curve does not depend on the scale of its weights, all
     operations with a unique result are linear in (w P, w), so the small spec state is still the oracle; code that
@@ -150,7 +168,7 @@ class MinPointMode(Mode):
         return MinPt(fr(q))
 
 
-MODES = {"tiny-weights": TinyWeightMode, "huge": HugeMode, "minimal-point": MinPointMode, "fraction": Mode, "int": IntMode, "float": FloatMode, "numpy.float64": NpFloatMode}
+MODES = {"stretch": StretchMode, "tiny-weights": TinyWeightMode, "huge": HugeMode, "minimal-point": MinPointMode, "fraction": Mode, "int": IntMode, "float": FloatMode, "numpy.float64": NpFloatMode}
 
 
 def classify(exc):
@@ -675,7 +693,11 @@ class Replayer:
         N, I = heavy.NodeSample, heavy.IntegratorArray
         return {"nodes_closed": N.closed_linspace, "nodes_open": N.open_linspace, "nodes_cheby": N.chebyshev,
                 "nodes_gauss": N.gauss_legendre, "w_closed": I.closed_newton_cotes, "w_open": I.open_newton_cotes,
-                "w_cheby": I.chebyshev, "w_gauss": I.gauss_legendre}[fn]
+                "w_cheby": I.chebyshev, "w_gauss": I.gauss_legendre,
+                "interp_closed": lambda n: I.bezier_integrator_array(N.closed_linspace(n)),
+                "interp_open": lambda n: I.bezier_integrator_array(N.open_linspace(n)),
+                "interp_closed_float": lambda n: I.bezier_integrator_array(N.closed_linspace(n, float)),
+                "interp_open_float": lambda n: I.bezier_integrator_array(N.open_linspace(n, float))}[fn]
 
     def do_MemoRequest(self, live, a):
         return {"val": tuple(self.rule_fn(a["fn"])(a["n"]))}
@@ -742,6 +764,22 @@ class Replayer:
         S2 = copy.deepcopy(S)
         err = S.fit_curve(C, nodes) if nodes is not None else S.fit_curve(C)
         out = {"err": err, "other_unchanged": self.project(C) == snap}
+        if self.mode.exact and self.mode.name == "fraction" and nodes is None and C.weights is None and S.weights is None \
+                and (len(a["other"]["P"]) + len(a["other"]["U"])) % 4 == 0:
+            # the projection depends on the FUNCTION, not on how the source is stored: the same source written with
+            # degree 7 (exactly elevated; elevation is C06's business) must give the same control points and error
+            try:
+                C7 = _copy.deepcopy(C)
+                C7.degree_increase(max(1, 7 - C7.degree))
+                S7 = _copy.deepcopy(S)
+                S7.ctrlpoints = None
+                err7 = S7.fit_curve(C7)
+                if self.project(S7) != self.project(S) or err7 != err:
+                    out["elevated_source"] = (f"source stored with degree {C7.degree}: control points "
+                                              f"{[str(x) for x in S7.ctrlpoints]}, error {err7}; stored with degree {C.degree}: "
+                                              f"{[str(x) for x in S.ctrlpoints]}, error {err}")
+            except Exception as e:
+                out["elevated_source"] = f"fit_curve of the degree-elevated source raised {type(e).__name__}: {e}"
         try:   # the dispatching form fit(x): a Curve argument means fit_curve
             err2 = S2.fit(C, nodes) if nodes is not None else S2.fit(C)
             out["fit_form"] = None if (self.project(S2) == self.project(S) and err2 == err) else \
@@ -932,6 +970,15 @@ class Replayer:
                     fails.append(f"{act['name']} returned one of its operands itself instead of a new object: "
                                  "changing the result changes the operand")
                 continue
+            if isinstance(r, self.Curve) and r.ctrlpoints is not None:
+                # points that are mutable objects (numpy arrays): changed IN PLACE, as a user or the library's own
+                # rational code path (p *= w) would - a result that shares its point objects with an operand shows here
+                for p in r.ctrlpoints:
+                    if hasattr(p, "shape") and getattr(p, "ndim", 0) >= 1:
+                        try:
+                            p *= 3
+                        except Exception:
+                            pass
             for mutate in ((lambda: r.degree_increase(1)) if isinstance(r, self.Curve) else (lambda: r.shift(1)),
                            (lambda: setattr(r, "ctrlpoints", [2 * p + 1 for p in r.ctrlpoints])) if isinstance(r, self.Curve)
                            else (lambda: r.scale(2)),
@@ -1027,6 +1074,19 @@ class Replayer:
             except TypeError:
                 err = rat(Fraction(float(val["err"])))
             act = {"name": name, "kv": t["pre"][a["obj"]]["U"], "nodes": a["nodes"], "err": err}
+            eqs = t["ret"].get("val")
+            if isinstance(eqs, dict) and d is not None and not all(core.fits32(x) for x in d["P"]):
+                # too large for TLC: the observed points are plugged into the specification's normal equations here
+                try:
+                    D = [fr(x) for x in d["P"]]
+                    gram, rhs = eqs["gram"], eqs["rhs"]
+                    if not any(list(x) == NAN for row in gram for x in row) and not any(list(x) == NAN for x in rhs):
+                        res = [sum(fr(gram[j][i]) * D[j] for j in range(len(D))) - fr(rhs[i]) for i in range(len(rhs))]
+                        if any(r != 0 for r in res):
+                            fails.append("residual_orthogonal: the fitted control points do not satisfy the normal equations "
+                                         f"G Q = b of the specification (G Q - b = {[str(r) for r in res]})")
+                except (KeyError, IndexError, TypeError) as e:
+                    raise core.MachineryError(f"normal equations of the model cannot be read: {e}")
             c = b
             b = None
         if name == "CvFitInRational":
@@ -1150,7 +1210,10 @@ class Replayer:
         a = t["act"]
         got = val["val"]
         want = t["ret"]["val"]
-        if want:  # rational family: the rule itself is specified
+        if want and a["fn"].endswith("_float"):
+            if len(got) != len(want) or any(not close(g, fr(w)) for g, w in zip(got, want)):
+                f.append(f"{a['fn']}({a['n']}): got {got}, spec {[str(fr(w)) for w in want]} (to rounding)")
+        elif want:  # rational family: the rule itself is specified
             try:
                 g = [rat(x) for x in got]
             except TypeError:
@@ -1253,7 +1316,8 @@ class Replayer:
     cmp_CvFitFunction = cmp_CvFitPoints
 
     def cmp_CvFitCurve(self, live, t, val):
-        return ([] if val["other_unchanged"] else ["source curve modified"]) + ([val["fit_form"]] if val.get("fit_form") else [])
+        return ([] if val["other_unchanged"] else ["source curve modified"]) + ([val["fit_form"]] if val.get("fit_form") else []) \
+            + ([val["elevated_source"]] if val.get("elevated_source") else [])
 
     def cmp_GeoProject(self, live, t, val):
         import numpy as np
@@ -1372,9 +1436,9 @@ class Replayer:
                 fails.append(f"npts: got {obj.npts}, spec {v['npts']}")
             if len(obj) != len(want["U"]):
                 fails.append("len() disagrees with the element list")
-            if not self.same_nums([self.num_out(x) for x in obj.knots], v["knots"]):
+            if not self.same_nums([self.num_out(self.mode.unnum(x)) for x in obj.knots], v["knots"]):
                 fails.append(f"knots: got {obj.knots}, spec {v['knots']}")
-            if not self.same_nums([self.num_out(x) for x in obj.limits], v["limits"]):
+            if not self.same_nums([self.num_out(self.mode.unnum(x)) for x in obj.limits], v["limits"]):
                 fails.append(f"limits: got {obj.limits}, spec {v['limits']}")
             # the element list through every access path: iteration, indexing from both ends, slices, .internal
             items = list(obj)
@@ -1460,7 +1524,7 @@ class Replayer:
 
     def _kv_equals(self, kv, want):
         try:
-            return self.same_nums([self.num_out(x) for x in kv], want)
+            return self.same_nums([self.num_out(self.mode.unnum(x)) for x in kv], want)
         except TypeError:
             return False
 
